@@ -133,7 +133,7 @@ fn backref_icase_body(unicode: bool, fwd: bool) {
     kani::cover!(r && c1 < 0x80 && c2 >= 0x80, "an ASCII character matched a non-ASCII one");
 }
 
-// @verif props=C10,C15,C06 tier=quick qprops=C10 timeout=1800 mem=12 unwind=6 c15=index,safe,index_safe c15q=all bound="haystack = padding, captured character, candidate: 3 symbolic scalars; fold = arbitrary function; forward" funcs="matchers::backref_icase,Utf8Input::subinput,InputIndexer::fold_equals,UTF8CharProperties::fold,next_right" stubs="unicode::fold_code_point -> arbitrary deterministic function on the haystack's characters (tied to the oracle tables by c10_fold_lemma_*/c10_legacy_upper_*)"
+// @verif props=C10,C15,C06 tier=quick qprops=C10,C15 timeout=1800 mem=12 unwind=6 c15=index,safe,index_safe c15q=all bound="haystack = padding, captured character, candidate: 3 symbolic scalars; fold = arbitrary function; forward" funcs="matchers::backref_icase,Utf8Input::subinput,InputIndexer::fold_equals,UTF8CharProperties::fold,next_right" stubs="unicode::fold_code_point -> arbitrary deterministic function on the haystack's characters (tied to the oracle tables by c10_fold_lemma_*/c10_legacy_upper_*)"
 #[kani::proof]
 #[kani::unwind(6)]
 #[kani::stub(crate::unicode::fold_code_point, stub_fold_code_point)]
